@@ -809,6 +809,12 @@ async fn run_sync(ctx: &Arc<RunCtx>, prune_any: bool) {
                     while next_gossip_height <= nh {
                         let h = next_gossip_height;
                         next_gossip_height += 1;
+                        // no connected peer, no gossip: the heads announced meanwhile are simply
+                        // missed (the syncer learns the new head when it re-initialises)
+                        if net.info().num_connected_peers == 0 {
+                            ctx.fault("gossip_missed_while_disconnected");
+                            continue;
+                        }
                         if faults_on && ctx.coin("gossip.lost", gossip_loss) {
                             ctx.fault("gossip_lost");
                             continue;
